@@ -25,8 +25,14 @@ CLAIMS = {
     'C14': {'text': 'every random.* call lies inside a seeded, restored region on every call chain from the entry points (PRNG); PRNGState is '
                     'followed at once by try/finally restore (RESTORE); set-to-sequence conversions are sorted (ORDER); memo key complete (MEMO).',
             'technique': 'reverse call-graph chain enumeration with region membership, statement-adjacency check, def-use'},
-    'C05': {'text': IEF + ' assertDataFramesEqual/assertDataFrameCorrect/assertOnDiskDataFrameCorrect/check_dataframe.',
-            'technique': 'call-graph reachability + definite-assignment walk + arity check (AST)'},
+    'C04': {'text': 'actual and expected sides are transformed identically (SYM) and split into lines by the same primitive (SPLIT); the '
+                    'failure count reaches the assertion (PROP); no handler swallows a failure (EXC); the permutation allowance is bounded '
+                    'by max_permutation_cases (PERM); removal is decided on un-normalised lines (RAWREMOVE).',
+            'technique': 'near-mirror clone comparison under role renaming, def-use closures, guard-chain queries'},
+    'C05': {'text': 'actual and reference frames are transformed identically (SYM); everything reported also fails the check (RFAIL); the '
+                    'failure count reaches the assertion (PROP); no option leaks between calls through instance state (STATE); the order '
+                    'check iterates each frame\'s own columns (ORDER); ' + IEF + ' the DataFrame assertions and check_dataframe.',
+            'technique': 'near-mirror clone comparison, control+data dependence closure of the returned failure count, call-graph reachability + definite-assignment walk'},
     'C07': {'text': 'discovery thresholds admit exactly the documented sets (THRESH); the discovered sign class is the strongest that holds '
                     'over the six orderings of (min, max, 0) (STRONG); min is computed with min/MIN and max with max/MAX everywhere, no '
                     'query truncates (AGG); nothing but the type is emitted for absent data (ABSENT).',
